@@ -7,10 +7,12 @@ import (
 
 	"github.com/samber/ro"
 
+	"verifharness/internal/catalog"
 	"verifharness/internal/driver"
 	"verifharness/internal/quiesce"
 	"verifharness/internal/rec"
 	"verifharness/internal/run"
+	"verifharness/internal/src"
 )
 
 // ---------------------------------------------------------------- producers that are joined by their teardown
@@ -185,6 +187,164 @@ func runObserverPanicsInTerminal(c driver.Case) driver.Result {
 	} else if n := tornDown.Load(); n != 1 {
 		res.Verdict, res.Key = driver.Violated, "C06/observer-panics-in-terminal/teardown-runs"
 		res.Msg = fmt.Sprintf("%s: the producer's teardown ran %d times", what, n)
+	}
+	return res
+}
+
+// ---------------------------------------------------------------- a second terminal while the first one's callback runs
+//
+// "Wait returns only once the subscription is closed - when the stream ends by itself, after the terminal callback
+// has returned". The observer dwells in its terminal callback (gate); meanwhile another goroutine hands a second
+// terminal notification to the same pipeline: a producer that breaks the protocol on a NewObservable /
+// NewSafeObservable, or - legally - the second source of a multi-source operator failing while the first source's
+// error is still being delivered. The second terminal is dropped, but it must not close the subscription under the
+// feet of the running callback: a Wait started earlier stays blocked until the callback has returned. The verdict
+// compares logical clock stamps (Wait returned / callback finished); wall-clock pauses only give the second
+// terminal time to act before the gate is opened.
+
+func doubleTerminalCases() []driver.Case {
+	var cases []driver.Case
+	for _, ctor := range []string{"NewObservable", "NewSafeObservable"} {
+		for _, first := range []string{"C", "E"} {
+			for _, second := range []string{"C", "E"} {
+				for _, below := range []string{"", "Map", "Take(5)"} {
+					cases = append(cases, driver.Case{ID: fmt.Sprintf("double-terminal/%s/%s%s/below=%s", ctor, first, second, below),
+						P: map[string]string{"kind": "double-terminal", "ctor": ctor, "first": first, "second": second, "below": below}})
+				}
+			}
+		}
+	}
+	for _, e := range catalog.All() {
+		if e.NSrc < 2 || e.Flags.Has(catalog.Blocks) || e.Flags.Has(catalog.Creation) {
+			continue
+		}
+		cases = append(cases, driver.Case{ID: "double-terminal/op/" + e.Name, P: map[string]string{"kind": "double-terminal", "entry": e.Name}})
+	}
+	return cases
+}
+
+func runDoubleTerminal(c driver.Case) driver.Result {
+	res := driver.Result{Verdict: driver.Held}
+	r := rec.New("dt")
+	entered, release := make(chan struct{}), make(chan struct{})
+	var once atomic.Bool
+	r.OnEvent = func(ev *rec.Event) {
+		if ev.Kind != rec.Next && once.CompareAndSwap(false, true) {
+			close(entered)
+			<-release
+		}
+	}
+	var what string
+	var sub ro.Subscription
+	var first, second func()
+	if en := c.Get("entry"); en != "" {
+		bb := build(c, false, nil)
+		what = bb.name + ": source 0 fails, source 1 fails while the observer is still inside its Error callback"
+		subp, done := subscribeAsync(bb.p, r)
+		select {
+		case <-done:
+		case <-time.After(3 * time.Second):
+			res.Verdict, res.Key, res.Dirty = driver.Inconclusive, "subscribe-did-not-return", true
+			return res
+		}
+		sub = *subp
+		send := func(s *src.Source) func() {
+			return func() {
+				defer func() { recover() }()
+				if s.IsSubscribed() && s.Live.Load() > 0 {
+					s.Send(src.Notif{K: rec.Error})
+				}
+			}
+		}
+		first, second = send(bb.srcs[0]), send(bb.srcs[1])
+	} else {
+		var dest atomic.Pointer[ro.Observer[int]]
+		fn := func(d ro.Observer[int]) ro.Teardown { dest.Store(&d); return nil }
+		var o ro.Observable[int]
+		if c.Get("ctor") == "NewSafeObservable" {
+			o = ro.NewSafeObservable(fn)
+		} else {
+			o = ro.NewObservable(fn)
+		}
+		switch c.Get("below") {
+		case "Map":
+			o = ro.Map(func(v int) int { return v })(o)
+		case "Take(5)":
+			o = ro.Take[int](5)(o)
+		}
+		what = fmt.Sprintf("%s producer, pipeline [%s]: terminal %s, then %s from a second goroutine while the observer is inside the first one's callback", c.Get("ctor"), c.Get("below"), c.Get("first"), c.Get("second"))
+		sub = o.Subscribe(rec.Raw[int](r))
+		term := func(k string) func() {
+			return func() {
+				defer func() { recover() }()
+				if k == "C" {
+					(*dest.Load()).Complete()
+				} else {
+					(*dest.Load()).Error(fmt.Errorf("terminal"))
+				}
+			}
+		}
+		first, second = term(c.Get("first")), term(c.Get("second"))
+	}
+	if sub == nil {
+		res.Verdict, res.Key = driver.Inconclusive, "no-subscription"
+		return res
+	}
+	var waitReturned atomic.Int64
+	waitDone := make(chan struct{})
+	go func() {
+		defer close(waitDone)
+		sub.Wait()
+		waitReturned.Store(rec.Tick())
+	}()
+	firstDone, secondDone := make(chan struct{}), make(chan struct{})
+	go func() { defer close(firstDone); first() }()
+	select {
+	case <-entered:
+	case <-time.After(2 * time.Second):
+		// the operator did not pass the first source's error on (it waits for something else): nothing to observe
+		close(release)
+		func() { defer func() { recover() }(); sub.Unsubscribe() }()
+		<-firstDone
+		<-waitDone
+		res.Sig = "first-terminal-not-delivered"
+		return res
+	}
+	go func() { defer close(secondDone); second() }()
+	// give the second terminal time to act: it either returns (dropped) or queues behind the running callback
+	select {
+	case <-secondDone:
+	case <-time.After(20 * time.Millisecond):
+	}
+	select {
+	case <-waitDone:
+	case <-time.After(5 * time.Millisecond):
+	}
+	close(release)
+	st, dump, _ := quiesce.Call(func() { <-firstDone; <-secondDone; <-waitDone }, 10*time.Second)
+	if st == quiesce.Hung {
+		res.Verdict, res.Key, res.Dirty = driver.Violated, "C06/double-terminal/hang/"+quiesce.BlockedSite(dump), true
+		res.Msg = what + ": the terminal callback returned but Wait (or a producer) never does; all goroutines blocked"
+		res.Witness = dump
+		return res
+	}
+	var termEnd int64
+	for _, ev := range r.Events() {
+		if ev.Kind != rec.Next && termEnd == 0 {
+			termEnd = ev.End
+		}
+	}
+	res.Events, res.Nontrivial = int64(r.Len())+1, true
+	res.Sig = "double-terminal→" + r.TraceString()
+	res.Sample = map[string]any{"scenario": what, "trace": r.TraceString(), "wait_returned_at": waitReturned.Load(), "terminal_callback_finished_at": termEnd}
+	if w := waitReturned.Load(); w < termEnd {
+		res.Verdict, res.Key = driver.Violated, "C06/double-terminal/wait-returned-before-terminal-callback-finished"
+		res.Msg = fmt.Sprintf("%s: Wait returned at clock %d, the terminal callback only finished at %d", what, w, termEnd)
+		return res
+	}
+	if !sub.IsClosed() {
+		res.Verdict, res.Key = driver.Violated, "C06/double-terminal/not-closed-after-terminal"
+		res.Msg = what + ": IsClosed() == false after the terminal notification was delivered and Wait returned"
 	}
 	return res
 }
